@@ -197,10 +197,10 @@ mutual
     condJzs d stmts.length sc.jzs stmts1 roEnd
   termination_by (d, stmts.length + 1, 0)
   decreasing_by
-    · simp_wf
-      exact Prod.Lex.left _ _ (by omega)
-    · simp_wf
-      exact Prod.Lex.right _ (Prod.Lex.left _ _ (by omega))
+    all_goals simp_wf
+    all_goals first
+      | exact Prod.Lex.left _ _ (by omega)
+      | exact Prod.Lex.right _ (Prod.Lex.left _ _ (by omega))
 
   /-- the loop `for op in jzOperations` on the statement list `stmts`; `n` bounds the length of the lists recursed on -/
   def condJzs (d n : Nat) (jzs : List Node) (stmts : List Node) (roEnd : Option Int) : R (List Node) :=
@@ -263,5 +263,191 @@ end
 
 /-- `condition_detect(fn)` -/
 def condDetect (stmts : List Node) : R (List Node) := condDetectD (cdDepthL stmts) stmts none
+
+/-! ### loop_detect -/
+
+theorem Node.weight_pos (x : Node) : 0 < x.weight := by
+  cases x <;> simp [Node.weight] <;> omega
+
+theorem weightList_drop_le (l : List Node) (k : Nat) : weightList (l.drop k) ≤ weightList l := by
+  induction l generalizing k with
+  | nil => simp [weightList]
+  | cons x xs ih =>
+    cases k with
+    | zero => simp
+    | succ k => simp only [List.drop_succ_cons, weightList]; have := ih k; omega
+
+theorem weightList_dropLast_le (l : List Node) : weightList l.dropLast ≤ weightList l := by
+  induction l with
+  | nil => simp [weightList]
+  | cons x xs ih =>
+    cases xs with
+    | nil => simp [weightList]
+    | cons y ys => simp only [List.dropLast_cons₂, weightList] at *; omega
+
+/-- fields of a RepeatOperation while loop_detect rewrites it -/
+structure Ro where
+  pos : Int
+  endPos : Int
+  cond : Node
+  stmts : List Node
+  type : Str
+  start : Node
+  varname : Name
+  sign : Str
+
+def Ro.toNode (r : Ro) : Node := .repeat_ r.pos r.endPos r.cond r.stmts r.type r.start r.varname r.sign
+
+/-- `is_repeat_while(ro)` together with the rewrite that follows it -/
+def repeatWhile (r : Ro) : R Ro :=
+  match r.stmts with
+  | [] => .ok r
+  | st :: rest =>
+    match st with
+    | .stmt _ (.ifThen _ (.unary op _ operand) [only] []) =>
+      match only with
+      | .stmt _ (.leaf .exitRepeat _ _) =>
+        if op = S "not" then .ok { r with cond := operand, stmts := rest } else .ok r
+      | .stmt _ _ => .ok r
+      | _ => .error .type
+    | .stmt _ _ => .ok r
+    | _ => .error .type
+
+/-- `is_repeat_with(ro, previous_st)`: the (varname, start) to use if it is one -/
+def isRepeatWith (r : Ro) (prev : Option Node) : R Bool :=
+  match prev with
+  | none => .ok false
+  | some (.stmt _ (.binary pop _ pleft _)) =>
+    if pop ≠ S "assign" then .ok false else do
+      let varname1 ← pleft.name
+      match r.cond with
+      | .binary _ _ cleft _ => do
+        let varname2 ← cleft.name
+        if varname1 ≠ varname2 then pure false else
+        match r.stmts.reverse with
+        | [] => pure false
+        | st :: _ =>
+          match st with
+          | .stmt _ (.binary lop _ lleft lright) =>
+            if lop ≠ S "assign" then pure false else do
+              let varname3 ← lleft.name
+              if varname1 ≠ varname3 then pure false else
+              match lright with
+              | .binary iop _ _ iright => do
+                let rn ← iright.name
+                if rn ≠ varname3 ∨ iop ≠ S "add" then pure false else pure true
+              | _ => pure false
+          | .stmt _ _ => pure false
+          | _ => .error .type
+      | _ => pure false
+  | some (.stmt _ _) => .ok false
+  | some _ => .error .type
+
+/-- the rewrite after a positive `is_repeat_with` -/
+def applyRepeatWith (r : Ro) (prev : Node) : R Ro :=
+  match prev, r.stmts.reverse with
+  | .stmt _ (.binary _ _ pleft pright), (.stmt _ (.binary _ _ _ (.binary _ _ increment _))) :: _ => do
+    let varname ← pleft.name
+    let sign : Str := match increment with
+      | .leaf .const n _ => if n == Name.s (S "-1") then S "-" else S "+"
+      | _ => S "+"
+    pure { r with type := S "for", varname := varname, start := pright, sign := sign, stmts := r.stmts.dropLast }
+  | _, _ => .error .other
+
+/-- `x.operands` -/
+def Node.operands : Node → R (List Node)
+  | .loadList _ _ ops => .ok ops
+  | _ => .error .type
+
+/-- `is_repeat_with_in_list(ro)` -/
+def isRepeatWithIn (r : Ro) : R Bool :=
+  match r.cond with
+  | .binary _ _ (.leaf .const index _) (.callFn cname _ cpar _ _ _) =>
+    if index ≠ Name.s (S "1") ∨ cname ≠ Name.s (S "count") then .ok false else
+    match r.stmts with
+    | [] => .ok false
+    | st :: _ =>
+      match st with
+      | .stmt _ (.binary fop _ _ fright) =>
+        if fop ≠ S "assign" then .ok false else
+        match fright with
+        | .callFn aname _ apar _ _ _ =>
+          if aname ≠ Name.s (S "getAt") then .ok false else do
+            let cops ← cpar.operands
+            let aops ← apar.operands
+            let c0 ← pyGet cops 0
+            let a1 ← pyGet aops 1
+            if !(c0.pyEq a1) then pure false else do
+              let a0 ← pyGet aops 0
+              let a0n ← a0.name
+              pure (a0n == Name.s (S "1"))
+        | _ => .ok false
+      | .stmt _ _ => .ok false
+      | _ => .error .type
+  | _ => .ok false
+
+def applyRepeatWithIn (r : Ro) : R Ro :=
+  match r.stmts with
+  | (.stmt _ (.binary _ _ fleft (.callFn _ _ apar _ _ _))) :: rest => do
+    let varname ← fleft.name
+    let aops ← apar.operands
+    let start ← pyGet aops 1
+    pure { r with type := S "for_in", varname := varname, start := start, stmts := rest }
+  | _ => .error .other
+
+/-- the three recognisers in sequence; returns the rewritten loop and whether the previous statement is to be removed -/
+def rewriteRepeat (r : Ro) (prev : Option Node) : R (Ro × Bool) := do
+  let r1 ← repeatWhile r
+  let isWith ← isRepeatWith r1 prev
+  let (r2, rm) ← if isWith then
+      match prev with
+      | some p => do let r2 ← applyRepeatWith r1 p; pure (r2, true)
+      | none => .error .other
+    else pure (r1, false)
+  let isIn ← isRepeatWithIn r2
+  let r3 ← if isIn then applyRepeatWithIn r2 else pure r2
+  pure (r3, rm)
+
+mutual
+  /-- `loop_detect_in_statements(statements)` -/
+  def loopDetect (stmts : List Node) : R (List Node) := do
+    let (l, rem) ← loopWalk stmts none
+    pyRemoveAll l rem
+  termination_by (weightList stmts, 1)
+  decreasing_by exact Prod.Lex.right _ (by omega)
+
+  /-- the `for st in statements` loop: (rewritten statements, to_remove) -/
+  def loopWalk (stmts : List Node) (prev : Option Node) : R (List Node × List Node) :=
+    match stmts with
+    | [] => .ok ([], [])
+    | st :: rest =>
+      match st with
+      | .stmt p (.repeat_ rp re c body t s v sg) => do
+        let (r, rm) ← rewriteRepeat { pos := rp, endPos := re, cond := c, stmts := body, type := t, start := s, varname := v, sign := sg } prev
+        if h : weightList r.stmts ≤ weightList body then do
+          let body' ← loopDetect r.stmts
+          let st' := Node.stmt p ({ r with stmts := body' } : Ro).toNode
+          let (l, rem) ← loopWalk rest (some st')
+          let rem0 := match rm, prev with | true, some pst => [pst] | _, _ => []
+          pure (st' :: l, rem0 ++ rem)
+        else .error .other
+      | .stmt p (.ifThen ip c ifs elses) => do
+        let ifs' ← loopDetect ifs
+        let elses' ← loopDetect elses
+        let st' := Node.stmt p (.ifThen ip c ifs' elses')
+        let (l, rem) ← loopWalk rest (some st')
+        pure (st' :: l, rem)
+      | .stmt _ _ => do
+        let (l, rem) ← loopWalk rest (some st)
+        pure (st :: l, rem)
+      | _ => .error .type
+  termination_by (weightList stmts, 0)
+  decreasing_by
+    all_goals simp_wf
+    all_goals simp only [weightList, Node.weight]
+    all_goals first
+      | exact Prod.Lex.left _ _ (by omega)
+      | (have := Node.weight_pos st; exact Prod.Lex.left _ _ (by simp only [weightList, Node.weight] at *; omega))
+end
 
 end Drx.Lscr
